@@ -72,6 +72,20 @@ theorem evalApplyRight_matrix {b : Builder α} {m : T α} {loc : List Nat} (hb :
   rw [hent r c r.2 c.2, mulEntry_eq_mul]
   rfl
 
+/-- `eval_apply_left` in matrix form. -/
+theorem evalApplyLeft_matrix {b : Builder α} {m : T α} {loc : List Nat} (hb : b.WF)
+    (hloc : isLocation loc b.radixes.length = true)
+    (hm : m.shape = [prod (loc.map (b.radixes.getD · 0)), prod (loc.map (b.radixes.getD · 0))]) :
+    ∃ e, b.evalApplyLeft m loc = .ok e ∧ e.shape = [prod b.radixes, prod b.radixes] ∧ e.WF ∧
+      toMatrix (prod b.radixes) e
+        = toMatrix (prod b.radixes) b.tensor * embedMatrix (prod b.radixes) b.radixes m loc := by
+  obtain ⟨e, hok, hsh, hwf, hent⟩ := evalApplyLeft_spec hb hloc hm
+  refine ⟨e, hok, hsh, hwf, ?_⟩
+  ext r c
+  show e.entry _ r c = _
+  rw [hent r c r.2 c.2, mulEntry_eq_mul]
+  rfl
+
 theorem get_pair_eq_entry {t : T α} {d : Nat} (h : t.shape = [d, d]) (r c : Nat) :
     t.get [r, c] = t.entry d r c := by
   unfold T.get T.entry
